@@ -11,7 +11,7 @@ from ..engines import tokeniser as T
 from ..engines.templates import TOK
 
 
-def check(ctx: Ctx) -> None:
+def _main_check(ctx: Ctx) -> None:
     p = ctx.p
     fe = p.func(f"{TOK}.tokenise")
     fd = p.func(f"{TOK}.detokenise")
@@ -393,3 +393,9 @@ def close_rule(ctx: Ctx, rule: str = "CLOSE") -> None:
               message=f"closing guard `{short(it.closing_node.test, 90)}` can hold in the state (bar time = 0, no note emitted in the current bar) with "
                       f"{[list(x[2]) for x in spurious]} still set: an extra bar of rests is appended and every later call is decoded one bar late",
               file=fe.file, node=it.closing_node)
+
+
+def check(ctx: Ctx) -> None:
+    _main_check(ctx)
+    from .common import view_deps
+    view_deps(ctx)
